@@ -35,3 +35,15 @@ chk("C14","fault_enumeration",
  "For generated histories the last commit/rollback is run once to count its mutating file operations and then re-run from a copy of the pre-operation directory with the k-th operation failing (once / persistently, EIO / ENOSPC) for every k (strided above the point budget): the call must return Err (not Ok, not panic, not hang), poison the handle, refuse a changeset prepared earlier, drop cleanly, and the directory must reopen to exactly pre or post.",
  "Faults are injected through the hook before the operation is issued (nothing is written). Fault points are enumerated per generated operation. Hang = no return within 90 s of an operation that normally takes milliseconds. Bucket exhaustion is exercised by a separate generator family (tiny hash tables).",
  "fault injection by enumeration of failing I/O operations over generated histories (proptest + I/O hook), model-based oracle","DESIGN.md §3 C14")
+chk("C07","exploration",
+ "For generated key sets and sets of distinct terminals, the multi-proof aggregated from honest reference path proofs is compared with the individual verified path proofs and with the truth on every probe key (both query forms), and its update verification with the per-path update verifier and the reference root of the updated set.",
+ "Pure nomt-core, no store. Trusts the reference trie. A store-level tier is not included (store-produced proofs are compared with the same reference in C05).",
+ "property-based testing: differential (multi-proof vs path proofs) + reference-trie oracle (proptest)","DESIGN.md §3 C07")
+chk("C08","exploration",
+ "Adversarial proof objects (generated mutations of honest path proofs and multi-proofs, incl. verification-preserving ones) are verified against the true root; every statement or update an accepted object confirms is judged against the key-value set itself.",
+ "Assumes collision resistance of blake3/sha2-256. Mutation operators are a generated sample of the object space, biased towards objects that still verify (24% of cases).",
+ "property-based testing: mutation-based adversarial generation + ground-truth oracle (proptest)","DESIGN.md §3 C08")
+chk("C18","exploration",
+ "The same adversarial objects (depths incl. 0/255/256/257/usize::MAX, reordered/duplicated/foreign paths, truncated/extended siblings) are pushed through every verifier entry point under catch_unwind, also against the root the malformed object itself hashes to (recording hasher) so that confirm_* and update verification run on malformed-but-verifying objects; any panic is a violation.",
+ "Sizes bounded (<= 24 paths, <= 400 siblings). _with_index forms are called with in-range indices only (out-of-range is a documented panic). Build has debug assertions and overflow checks on.",
+ "property-based testing: mutation-based generation with totality oracle (catch_unwind) (proptest)","DESIGN.md §3 C18")
